@@ -718,7 +718,21 @@ def c02_machine_factory(tier, Base):
                 self.do(['ranges', None])
                 return
             lo, hi = data.draw(lab.boxes(dim, integer=data.draw(st.booleans()), allow_inf=True))
-            # None sides (replaced by the default +-1e3)
+            if self.state is not None and data.draw(st.integers(0, 3)) == 0:
+                # a box that hugs the current best point (a bound within a few percent of it, the other side far or
+                # open): the simplex / trial offsets computed from the point then cross the bound
+                try:
+                    best = [float(v) for v in self.state.solver.bestSolution]
+                except Exception:
+                    best = []
+                if len(best) == dim and all(math.isfinite(v) for v in best):
+                    for i, x in enumerate(best):
+                        d = data.draw(st.sampled_from([0.0, 0.01, 0.03, 0.04, 0.1])); far = data.draw(st.sampled_from(['inf', 'inf', 5.0, 0.5]))
+                        eps = abs(x) * d + (1e-4 if d else 0.0)
+                        if data.draw(st.booleans()):
+                            lo[i] = x - eps; hi[i] = 'inf' if far == 'inf' else x + far
+                        else:
+                            hi[i] = x + eps; lo[i] = '-inf' if far == 'inf' else x - far
             lo = [None if data.draw(st.integers(0, 11)) == 0 else v for v in lo]
             hi = [None if data.draw(st.integers(0, 11)) == 0 else v for v in hi]
             self.do(['ranges', lo, hi, tc[0], tc[1]])
